@@ -123,13 +123,13 @@ PROPS['C10'] = dict(
 )
 PROPS['C11'] = dict(
     title='define table',
-    units=['arms'],
+    units=['arms', 'prologue'],
     shims=['A-glue', 'A-hashmap', 'A-str'],
     design='DESIGN.md 3/C11',
     technique='contract-based deductive verification (Verus) of the verbatim `define / `undef / `undefineall arms and of the table adoption at include and expansion',
-    level_text='Deductive proof that `undef removes exactly the named entry, `undefineall empties the table, `define X inserts or replaces exactly X with an entry recording the formal names, default texts and body text as written (origin = defining file and body range) unless X is predefined, and that no other arm writes the table except adopting the one returned by an include or an expansion.',
-    level_note=ARMS_NOTE + ' Partial: seeding of SV_COV_* / caller defines (the prologue loops of preprocess_str) and the two-file equivalence are not decided.',
-    not_covered=['prologue of preprocess_str (SV_COV_* seeding, copy of caller defines)', 'equivalence with preprocessing the concatenated files'],
+    level_text='Deductive proof that the table is seeded with the 15 coverage constants and then every caller entry (caller wins), that `undef removes exactly the named entry, `undefineall empties the table, `define X inserts or replaces exactly X with an entry recording the formal names, default texts and body text as written (origin = defining file and body range) unless X is predefined, and that no other arm writes the table except adopting the one returned by an include or an expansion.',
+    level_note=ARMS_NOTE + ' Partial: the two-file equivalence is not decided; the values of the SV_COV_* constants are not compared with IEEE 40.3.1.',
+    not_covered=['equivalence with preprocessing the concatenated files', 'values of the SV_COV_* constants'],
 )
 
 GVC_NOTE = 'gvc parses the real parser sources on every run; callee CONTRACTS (never bodies) are used; the generator (tokeniser, combinator table, symbolic evaluation) is trusted and is tested against deliberately broken bodies. Assumed: A-nom, A-packrat, A-strconcat.'
@@ -191,7 +191,7 @@ PROPS['C17'] = dict(
 )
 PROPS['C08'] = dict(
     title='totality',
-    units=['pt', 'wrap', 'iter', 'conv', 'derive', 'getstr', 'arms', 'depth', 'bind', 'pphelp', 'display'],
+    units=['pt', 'wrap', 'iter', 'conv', 'derive', 'getstr', 'arms', 'depth', 'bind', 'pphelp', 'display', 'prologue'],
     engines=[dict(module='gvc.engine', args=dict(analyses=('panics', 'faithful', 'nullable')))],
     shims=['A-btree', 'A-str', 'A-path/fs', 'A-node', 'A-vec', 'A-nom', 'A-glue'],
     design='DESIGN.md 3/C08',
